@@ -35,15 +35,20 @@ def shares_nodes(a, b, placeholders_ok=True):
 
 
 def use_placeholder_singleton(t, rng, p=0.5):
-    """replace (in place, before any snapshot) NoneItem leaves without layout by the NONE_ITEM singleton itself:
-    half-built trees carry that very object"""
+    """replace (in place, before any snapshot) ONE NoneItem leaf without layout by the NONE_ITEM singleton itself:
+    half-built trees carry that very object. (Only one: the identity-based oracles map every node object to its
+    path, which needs the objects of a tree to be distinct.)"""
     T = common.impl().tree
+    if rng.random() >= p:
+        return t
     for n in list(all_nodes(t)):
         ch = list(n.children)
-        new = [T.NONE_ITEM if (type(c) is T.NoneItem and not c.head and not c.tail and c.pos is None
-                               and c.size is None and rng.random() < p) else c for c in ch]
-        if any(x is not y for x, y in zip(ch, new)):
-            n.children = new
+        for i, c in enumerate(ch):
+            if type(c) is T.NoneItem and not c.head and not c.tail and c.pos is None and c.size is None \
+                    and getattr(c, "_luqum_name", None) is None:
+                ch[i] = T.NONE_ITEM
+                n.children = ch
+                return t
     return t
 
 
